@@ -865,7 +865,7 @@ C15_Step(c, c2, g, ln) ==
             started == s.op = "recv" /\ s.a = a /\ k.st = "connecting" /\ k2.st = "connected"
             ended == (s.op = "lost" /\ s.a = a) \/ (s.op = "build" /\ s.a = a)
             \* a PINGRESP answers the PINGREQs written strictly before this instant ... received in (tp, tp + k)
-            open1 == IF gotResp THEN SelectSeq(x.open, LAMBDA tp : ~(ln.t > tp /\ ln.t < tp + per) /\ ~(ln.t = tp)) ELSE x.open
+            open1 == IF gotResp THEN SelectSeq(x.open, LAMBDA tp : ~(ln.t > tp /\ ln.t <= tp + per) /\ ~(ln.t = tp)) ELSE x.open
             open2 == open1 \o [i \in 1..Len(pings(a)) |-> ln.t]
             x2 == [on |-> IF started THEN k2.ka > 0 ELSE IF ended THEN FALSE ELSE x.on,
                    last |-> IF pings(a) # <<>> \/ started THEN ln.t ELSE x.last,
